@@ -63,6 +63,8 @@ def configs(tier, seed):
     for scheme in ('nearest', 'linear', ['nearest', 'linear'], ['linear', 'nearest']):
         out.append(('deform/2d/%s' % (scheme if isinstance(scheme, str) else '+'.join(scheme)),
                     dict(kind='deform', scheme=scheme, nd=2)))
+        out.append(('deform/2d/%s/fortran-ordered-displacement' % (scheme if isinstance(scheme, str) else '+'.join(scheme)),
+                    dict(kind='deform', scheme=scheme, nd=2, forder=True)))
     for scheme in ('nearest', 'linear'):
         out.append(('deform/1d/%s' % scheme, dict(kind='deform', scheme=scheme, nd=1)))
     for vd in ('float32', 'complex64', 'float64'):
@@ -167,7 +169,7 @@ def ref_interp(cvs, schemes, F, point):
     return val
 
 
-def case(ctx, kind, conv=None, dtype='float64', nd=2, scheme=None, cv=None):
+def case(ctx, kind, conv=None, dtype='float64', nd=2, scheme=None, cv=None, forder=False):
     bump = 1 if ctx.canary else 0
     if kind == 'sampling':
         if nd == 2:
@@ -367,7 +369,12 @@ def case(ctx, kind, conv=None, dtype='float64', nd=2, scheme=None, cv=None):
         was = proxy.STATE.armed
         proxy.STATE.armed = False
         try:
-            d = space.tangent_bundle.element(disp)
+            if forder:
+                # displacement components stored in Fortran order (same values)
+                d = space.tangent_bundle.element([space.element(np.asfortranarray(np.array(c_, dtype=float)))
+                                                  for c_ in disp])
+            else:
+                d = space.tangent_bundle.element(disp)
         finally:
             proxy.STATE.armed = was
         got = linear_deform(templ, d, interp=scheme)
